@@ -5,44 +5,51 @@
 (* constants: pointers 4 bytes, ARGMIN 64, STKCAP 96, STRMAX 16, headroom 8.  *)
 (* COSTMODEL selects how the system limiter charges an argument:              *)
 (*   "bytes"    len + 1                     (the code before the repair)      *)
-(*   "ptr"      len + 1 + PTR, budget capped at STKCAP, long arguments        *)
-(*              refused                      (the repaired code)              *)
+(*   "nofname"  len + 1 + PTR, budget capped at STKCAP, long arguments        *)
+(*              refused - but the name of the executed file is not charged    *)
+(*              (the code after the first repair: safe only while the name    *)
+(*              fits in the headroom)                                         *)
+(*   "ptr"      as "nofname", and the file name is reserved as well           *)
+(*              (the repaired code)                                           *)
 EXTENDS XargsBatchImpl, TLC
 
-CONSTANTS MAXARGS, LENS, RLIMS, ENVS, COSTMODEL
+CONSTANTS MAXARGS, LENS, RLIMS, ENVS, COSTMODEL, CMDLENS
 
 PTR == 4  ARGMIN == 64  STKCAP == 96  STRMAX == 16  HEADROOM == 8
 K == INSTANCE KernelExec
 
-\* the command: argv[0] of 3 bytes, no initial arguments; the file name executed is the same string
-CMDLEN == 3
+\* the command: argv[0] of cmdlen bytes (a path: the file name executed is the same string), no initial arguments
+VARIABLES rlim, env, lens, cmdlen
+Ptrs == COSTMODEL \in {"ptr", "nofname"}
 EnvBytes(e) == e * 5             \* e variables of the form "A=xy" -> 4 bytes + terminator
 \* what the code takes as the budget of the last limiter (in bytes of its own cost model)
-SysBudget(rlim, e) ==
-  LET am == IF COSTMODEL = "ptr" THEN MinOf(K!LibcArgMax(rlim), STKCAP) ELSE K!LibcArgMax(rlim)
-      envcost == IF COSTMODEL = "ptr" THEN EnvBytes(e) + e * PTR ELSE EnvBytes(e)
+SysBudget(rl, e) ==
+  LET am == IF Ptrs THEN MinOf(K!LibcArgMax(rl), STKCAP) ELSE K!LibcArgMax(rl)
+      envcost == IF Ptrs THEN EnvBytes(e) + e * PTR ELSE EnvBytes(e)
   IN am - HEADROOM - envcost
 \* the cost of one argument in the system limiter's units, expressed through the length the generic machine sees:
 \* XargsBatchImpl charges Cost(a) = a.len + 1, so the "ptr" model is obtained by inflating the lengths
-Inflate(l) == IF COSTMODEL = "ptr" THEN l + PTR ELSE l
-CmdCost == IF COSTMODEL = "ptr" THEN CMDLEN + 1 + PTR + (CMDLEN + 1) ELSE CMDLEN + 1   \* argv[0] (+ pointer + file name)
+Inflate(l) == IF Ptrs THEN l + PTR ELSE l
+\* argv[0] (+ pointer (+ file name)); the code takes the file name off the budget instead - the same thing
+CmdCost(cl) == CASE COSTMODEL = "ptr" -> cl + 1 + PTR + (cl + 1)
+                 [] COSTMODEL = "nofname" -> cl + 1 + PTR
+                 [] OTHER -> cl + 1
 
-VARIABLES rlim, env, lens
-Inputs(ls, rl, e) ==
+Inputs(ls, rl, e, cl) ==
   [args |-> [k \in DOMAIN ls |-> [len |-> Inflate(ls[k]), hard |-> FALSE]], n |-> 0, L |-> 0, s |-> 0,
-   cmd |-> CmdCost, x |-> FALSE, r |-> FALSE, sys |-> SysBudget(rl, e)]
+   cmd |-> CmdCost(cl), x |-> FALSE, r |-> FALSE, sys |-> SysBudget(rl, e)]
 
-Init == \E ls \in SeqsUpTo(LENS, MAXARGS), rl \in RLIMS, e \in ENVS :
-           /\ lens = ls /\ rlim = rl /\ env = e
+Init == \E ls \in SeqsUpTo(LENS, MAXARGS), rl \in RLIMS, e \in ENVS, cl \in CMDLENS :
+           /\ lens = ls /\ rlim = rl /\ env = e /\ cmdlen = cl
            \* the repaired code refuses an argument that is too long for any exec before batching
-           /\ ImplInit(Inputs(ls, rl, e))
-Next == ImplNext /\ UNCHANGED <<rlim, env, lens>>
-Spec == Init /\ [][Next]_<<bvars, rlim, env, lens>>
+           /\ ImplInit(Inputs(ls, rl, e, cl))
+Next == ImplNext /\ UNCHANGED <<rlim, env, lens, cmdlen>>
+Spec == Init /\ [][Next]_<<bvars, rlim, env, lens, cmdlen>>
 
 TooLong(l) == l + 1 > STRMAX
-ExecOf(b) == [argc |-> 1 + Len(b), argbytes |-> (CMDLEN + 1) + SumSeq([k \in DOMAIN b |-> lens[b[k]] + 1]),
-              maxarg |-> IF b = <<>> THEN CMDLEN ELSE MaxOf(CMDLEN, CHOOSE m \in {lens[b[k]] : k \in DOMAIN b} : \A k \in DOMAIN b : lens[b[k]] <= m),
-              envc |-> env, envbytes |-> EnvBytes(env), fname |-> CMDLEN + 1]
+ExecOf(b) == [argc |-> 1 + Len(b), argbytes |-> (cmdlen + 1) + SumSeq([k \in DOMAIN b |-> lens[b[k]] + 1]),
+              maxarg |-> IF b = <<>> THEN cmdlen ELSE MaxOf(cmdlen, CHOOSE m \in {lens[b[k]] : k \in DOMAIN b} : \A k \in DOMAIN b : lens[b[k]] <= m),
+              envc |-> env, envbytes |-> EnvBytes(env), fname |-> cmdlen + 1]
 
 \* every command line the loop hands to exec is one the kernel accepts - as long as each single argument is
 \* within the per-argument limit (the property's premise)
